@@ -78,8 +78,9 @@ class T:
         return Shape("dict", entries=dict(entries), open=_open)
 
     @staticmethod
-    def opaque(typ):
-        return Shape("opaque", typ=typ)
+    def opaque(typ, **data):
+        """an opaque collaborator; `data` are shapes of values its model keeps (Opaque.data)"""
+        return Shape("opaque", typ=typ, data=data)
 
     @staticmethod
     def const(value):
@@ -329,7 +330,12 @@ class Maker:
             return st, ref
         if k == "opaque":
             sort = z3.DeclareSort("Obj_" + shape.typ)
-            return st, Opaque(shape.typ, z3.Const(name + ".id", sort))
+            data = None
+            if getattr(shape, "data", None):
+                data = {}
+                for dk, ds in shape.data.items():
+                    st, data[dk] = self.make(st, ds, f"{name}.{dk}")
+            return st, Opaque(shape.typ, z3.Const(name + ".id", sort), data)
         if k == "keymap":
             sort = z3.DeclareSort("Obj_" + shape.typ)
             o = Opaque(shape.typ, z3.Const(name + ".id", sort))
